@@ -167,6 +167,42 @@ def execute(program, ctx, mode):
         # while it has not been collected yet: either outcome is legitimate
         return None if bad_dead else True
 
+    # Re-entrant observer (C15 worlds, one in two): a dependent of every interface that reads the attribute accessors from
+    # inside the change notification.  Whatever moment that is, `get(name)` has to be the description of the first
+    # definer along the `__iro__` the interface shows at that same moment (the memo must not outlive the order it was
+    # filled from); judged against the order recorded in the callback, so no assumption about the final state is made.
+    spies = []
+    spy_world = 'C15' in props and h64(program.get('seed') or 0, 'attr-spy-world') % 2 == 0
+
+    class AttrSpy:
+        def __init__(self, lbl, I):
+            self.lbl = lbl
+            self.I = I
+            self.seen = []
+
+        def changed(self, originally_changed):
+            I = self.I
+            iro = [label.get(id(x)) for x in I.__iro__]
+            self.seen.append((iro, {n: I.get(n) for n in NAMES}, {n: (n in I) for n in NAMES}))
+            ctx.fault('cb-reenter-accessors-in-change-notification')
+
+    def check_spies():
+        for spy in spies:
+            seen, spy.seen = spy.seen, []
+            for iro, got, has in seen:
+                for n in NAMES:
+                    want = None
+                    for l in iro:
+                        tbl = attrs.get(l) or {}
+                        if n in tbl:
+                            want = tbl[n]
+                            break
+                    ctx.probe('accessor-inside-notification')
+                    if got[n] is not want or has[n] != (want is not None):
+                        ctx.violation('C15', 'accessor-in-notification', 'C15|get|stale-inside-change-notification|%s' % (
+                            'absent-but-defined' if got[n] is None else ('present-but-undefined' if want is None else 'not-first-definer')),
+                            {'iface': spy.lbl, 'name': n, 'iro': iro})
+
     def tagval(lbl, t, v):
         """the value stored under a tag: usually a tuple naming its definer; sometimes a value that coincides with what
         callers pass as the default (None, 0) -- an override to such a value must still win over a farther ancestor"""
@@ -199,6 +235,10 @@ def execute(program, ctx, mode):
         if iiv:
             I.setTaggedValue('invariants', [mk_inv(lbl, j, f) for j, f in enumerate(iiv)])
         reg(lbl, I, 'I', mb)
+        if spy_world:
+            spy = AttrSpy(lbl, I)
+            spies.append(spy)
+            I.subscribe(spy)
         attrs[lbl] = {n: I.direct(n) for n in iat}
         tags[lbl] = {t: tagval(lbl, t, v) for t, v in itg.items()}
         rawtags[lbl] = dict(itg)
@@ -803,6 +843,8 @@ def execute(program, ctx, mode):
                               {'node': s, 'bases': dict(bases_of)})
         else:
             raise ValueError('unknown op %r' % (name,))
+        if spies:
+            check_spies()
         check(k)
         if 'C02' in props and fresh_p and (h64(k, 'fresh') % 100) < fresh_p:
             check_fresh()
